@@ -125,6 +125,11 @@ def ladder(cut: int, rst: bool, fail: int, ei: int) -> bool:
         return False                          # the server always closes that connection
     if not w.alive:
         return False
+    if c.out and not is_valid_full:
+        # the error page is written without blocking (a client that does not read must not wedge the worker), and the
+        # socket is put back afterwards
+        if c.blocking_at_send[-1] not in (0, False) or c.blocking not in (1, True):
+            return False
     # the worker serves the next connection normally
     del calls[:]
     c2 = RecSock([GOOD])
@@ -134,6 +139,34 @@ def ladder(cut: int, rst: bool, fail: int, ei: int) -> bool:
     except hr.Bad:
         return False
     return calls == ["/ok"] and len(rs) == 1 and rs[0]["code"] == 200 and rs[0]["body"] == b"ok" and c2.closed >= 1
+
+
+def stall(cut: int) -> bool:
+    """
+    pre: 0 <= cut < len(GOOD)
+    post: __return__
+    """
+    # keep-alive connection on an async worker: one complete request, then the client sends nothing (or only a prefix of
+    # the next request) until the keep-alive timeout fires: nothing more reaches the application, nothing more is sent
+    from engine.stubs.recsock import STALL
+    cut = pick(cut, 0, len(GOOD) - 1)
+    calls = []
+
+    def app(environ, start_response):
+        calls.append(environ["RAW_URI"])
+        start_response("200 OK", [("Content-Length", "2")])
+        return [b"ok"]
+    cfg = W.make_cfg(keepalive=2)
+    w = W.async_worker(cfg, app)
+    first = b"POST /first HTTP/1.1\r\nHost: h\r\nContent-Length: 0\r\n\r\n"
+    script = [first] + ([GOOD[:cut]] if cut else []) + [STALL]
+    c = RecSock(script)
+    W.run_connection("async", w, c)
+    try:
+        rs = hr.parse_stream(c.wire(), [False, False])
+    except hr.Bad:
+        return False
+    return calls == ["/first"] and len(rs) == 1 and rs[0]["code"] == 200 and c.closed >= 1 and w.alive
 
 
 def ladder_twin(cut: int, rst: bool, fail: int, ei: int) -> bool:
@@ -261,6 +294,9 @@ OBLIGATIONS = [
        bound="19 representative heads (one per parser exception class + garbage + valid) x {sync,gthread,async-base}; "
              "full head: send failure at call 0/1/never with errno in {EPIPE,ECONNRESET,ENOTCONN,EBADF,EIO}; truncation at "
              "every offset followed by EOF|ECONNRESET: quick for 3 heads on sync + 1 on gthread/async, thorough for all"),
+    Ob("C05.stall", "stall", timeout=600,
+       bound="async-base keep-alive loop: one complete request, then any prefix (0..len-1 bytes) of a second one, then the "
+             "keep-alive timeout fires inside timeout_ctx()"),
     Ob("C05.ladder.twin", "ladder_twin", cases=[{"kind": "sync", "req": "cl_te", "cutlo": 0}], expect="refute", timeout=300),
     Ob("C05.error_page", "error_page",
        cases={"quick": [{"exc": e, "n": 1} for e in EXC] + [{"exc": "Generic", "n": 2}],
